@@ -171,7 +171,7 @@ type TFact struct {
 }
 
 type absint struct {
-	diffBusy bool
+	diffBusy   bool
 	w          *World
 	memo       map[ssa.Value]ival
 	assume     map[ssa.Value]ival
